@@ -1400,5 +1400,300 @@ theorem mem_of_get? (lk : Lookup) (k : PKey) (l : List Gene) (h : get? lk k = so
     · simp only [hk] at h
       simp [ih h]
 
+theorem consultedOf_spec (t : RawTree) (ps : List PKey) (c : List PKey)
+    (h : consultedOf t ps = .ok c) : ∀ p, p ∈ c ↔ p ∈ ps ∧ Consulted t p := by
+  induction ps generalizing c with
+  | nil => simp only [consultedOf, Except.ok.injEq] at h; subst h; simp
+  | cons q qs ih =>
+    simp only [consultedOf] at h
+    cases hc : childrenOf t q with
+    | error e => simp [hc] at h
+    | ok ch =>
+      cases hr : consultedOf t qs with
+      | error e => simp [hc, hr] at h
+      | ok rest =>
+        simp only [hc, hr, Except.ok.injEq] at h
+        subst h
+        intro p
+        have := ih rest hr p
+        by_cases hl : ch.length > 1
+        · simp only [hl, if_true, List.mem_cons, this]
+          constructor
+          · rintro (rfl | ⟨h1, h2⟩)
+            · exact ⟨Or.inl rfl, ch, hc, hl⟩
+            · exact ⟨Or.inr h1, h2⟩
+          · rintro ⟨rfl | h1, h2⟩
+            · exact Or.inl rfl
+            · exact Or.inr ⟨h1, h2⟩
+        · simp only [hl, if_false, this, List.mem_cons]
+          constructor
+          · rintro ⟨h1, h2⟩; exact ⟨Or.inr h1, h2⟩
+          · rintro ⟨rfl | h1, h2⟩
+            · obtain ⟨ch', hc', hl'⟩ := h2
+              rw [hc] at hc'; cases hc'
+              exact absurd hl' hl
+            · exact ⟨h1, h2⟩
+
+theorem consultedOf_ok (t : RawTree) (ps : List PKey) (h : ∀ p ∈ ps, ∃ ch, childrenOf t p = .ok ch) :
+    ∃ c, consultedOf t ps = .ok c := by
+  induction ps with
+  | nil => exact ⟨[], rfl⟩
+  | cons q qs ih =>
+    obtain ⟨ch, hc⟩ := h q (by simp)
+    obtain ⟨c, hr⟩ := ih (fun p hp => h p (by simp [hp]))
+    exact ⟨if ch.length > 1 then q :: c else c, by simp only [consultedOf, hc, hr]⟩
+
+/-- the stages of `create_marker_cache_from_specified_markers` with a taxonomy -/
+theorem createCache_some (t : RawTree) (lk : Lookup) (R Q : List Gene) (m : Nat) :
+    createCache (some t) lk R Q m =
+      match validateLookup t Q m lk with
+      | .error e => .error e
+      | .ok lk' =>
+        match consultedOf t t.allParents with
+        | .error e => .error e
+        | .ok c =>
+          match intersectAll Q (some c) lk' with
+          | .error e => .error e
+          | .ok final => if missingRef R lk' then .error .notInReference else writeCache final R Q := by
+  unfold createCache
+  cases hv : validateLookup t Q m lk with
+  | error e => simp only [hv]
+  | ok lk' =>
+    cases hc : consultedOf t t.allParents with
+    | error e => simp only [hv, hc]
+    | ok c => simp only [hv, hc]; rfl
+
+/-- the root's entry is never rewritten -/
+theorem stepAt_root (t : RawTree) (Q : List Gene) (m : Nat) (lk : Lookup) (s0 : VState)
+    (h : stepAt t Q m lk none = .ok s0) : s0.lookup = lk := by
+  unfold stepAt validateStepWith at h
+  cases hc : childrenOf t none with
+  | error e => simp [hc] at h
+  | ok ch =>
+    simp only [hc] at h
+    split at h
+    · cases h; rfl
+    · cases hg : get? lk none with
+      | some own =>
+        simp only [hg] at h
+        split at h
+        · cases h; rfl
+        · cases h
+          unfold patchAndCount
+          split
+          · simp only; split <;> rfl
+          · rfl
+      | none =>
+        simp [hg] at h
+        cases h; rfl
+
+theorem validateLookup_root (t : RawTree) (hT : TreeOK t) (Q : List Gene) (m : Nat) (lk lk' : Lookup)
+    (h : validateLookup t Q m lk = .ok lk') : get? lk' none = get? lk none := by
+  obtain ⟨stF, hF, _, h2, _⟩ := validateLoop_spec t hT Q m lk
+  unfold validateLookup at h
+  rw [hF] at h
+  simp only [finish] at h
+  have hl : lk' = stF.lookup := by
+    split at h
+    · split at h <;> cases h
+    · cases h; rfl
+  subst hl
+  obtain ⟨s0, h0, he⟩ := h2 none (by simp [RawTree.allParents])
+  rw [he, stepAt_root t Q m lk s0 h0]
+
+theorem intersectAll_ok_eq (Q : List Gene) (consulted : Option (List PKey)) (lk final : Lookup)
+    (h : intersectAll Q consulted lk = .ok final) : final = lk.map (fun e => (e.1, interQ Q e.2)) := by
+  induction lk generalizing final with
+  | nil => simp only [intersectAll, Except.ok.injEq] at h; subst h; rfl
+  | cons e es ih =>
+    obtain ⟨k, l⟩ := e
+    rw [intersectAll_cons] at h
+    split at h
+    · cases h
+    · cases hr : intersectAll Q consulted es with
+      | error e' => simp [hr] at h
+      | ok r =>
+        simp only [hr, Except.ok.injEq] at h
+        subst h
+        simp [ih r hr]
+
+theorem writeGroup_ok (R Q : List Gene) (genes : List Gene) (rows : List (Nat × Nat))
+    (h : writeGroup R Q genes = .ok rows) :
+    ∃ names, names.Perm genes ∧ RowsFor R Q rows names ∧ rows.Pairwise (fun a b => a.1 ≤ b.1) := by
+  unfold writeGroup at h
+  cases hp : pairsOf R Q genes with
+  | error e => simp [hp] at h
+  | ok ps =>
+    simp only [hp, Except.ok.injEq] at h
+    subst h
+    obtain ⟨names, h1, h2⟩ := rowsFor_perm R Q (sortPairs_perm ps).symm genes (pairsOf_ok R Q genes ps hp)
+    exact ⟨names, h1, h2, sortPairs_sorted ps⟩
+
+theorem rowsFor_row (R Q : List Gene) (ps : List (Nat × Nat)) (gs : List Gene) (h : RowsFor R Q ps gs) :
+    (∀ p ∈ ps, ∃ g ∈ gs, R[p.1]? = some g ∧ Q[p.2]? = some g) ∧
+    (∀ g ∈ gs, ∃ p ∈ ps, R[p.1]? = some g ∧ Q[p.2]? = some g) := by
+  induction ps generalizing gs with
+  | nil => cases gs <;> simp_all [RowsFor]
+  | cons p ps ih =>
+    cases gs with
+    | nil => simp [RowsFor] at h
+    | cons g gs =>
+      obtain ⟨h1, h2⟩ := h
+      obtain ⟨i1, i2⟩ := ih gs h2
+      constructor
+      · intro q hq
+        rcases List.mem_cons.1 hq with rfl | hq
+        · exact ⟨g, by simp, h1⟩
+        · obtain ⟨g', hg', hh⟩ := i1 q hq
+          exact ⟨g', by simp [hg'], hh⟩
+      · intro g' hg'
+        rcases List.mem_cons.1 hg' with rfl | hg'
+        · exact ⟨p, by simp, h1⟩
+        · obtain ⟨q, hq, hh⟩ := i2 g' hg'
+          exact ⟨q, by simp [hq], hh⟩
+
+theorem namesAt_ok_of_valid (names : List Gene) (is : List Nat)
+    (h : ∀ i ∈ is, ∃ g, names[i]? = some g) :
+    ∃ gs, namesAt names is = .ok gs ∧ ∀ i ∈ is, ∀ g, names[i]? = some g → g ∈ gs := by
+  induction is with
+  | nil => exact ⟨[], rfl, by simp⟩
+  | cons i is ih =>
+    obtain ⟨g, hg⟩ := h i (by simp)
+    obtain ⟨gs, h1, h2⟩ := ih (fun j hj => h j (by simp [hj]))
+    refine ⟨g :: gs, by simp [namesAt, hg, h1], ?_⟩
+    intro j hj g' hg'
+    rcases List.mem_cons.1 hj with rfl | hj
+    · rw [hg] at hg'; cases hg'; simp
+    · simp [h2 j hj g' hg']
+
+theorem writeGroups_rows (R Q : List Gene) (final : Lookup) (gs : List (PKey × List (Nat × Nat)))
+    (h : writeGroups R Q final = .ok gs) :
+    ∀ e ∈ gs, ∀ row ∈ e.2, ∃ g, R[row.1]? = some g ∧ Q[row.2]? = some g := by
+  induction final generalizing gs with
+  | nil => simp only [writeGroups, Except.ok.injEq] at h; subst h; simp
+  | cons e es ih =>
+    obtain ⟨k0, genes⟩ := e
+    simp only [writeGroups] at h
+    cases hg : writeGroup R Q genes with
+    | error e' => simp [hg] at h
+    | ok g =>
+      cases hr : writeGroups R Q es with
+      | error e' => simp [hg, hr] at h
+      | ok r =>
+        simp only [hg, hr, Except.ok.injEq] at h
+        subst h
+        intro e he row hrow
+        rcases List.mem_cons.1 he with rfl | he
+        · obtain ⟨names, _, h2, _⟩ := writeGroup_ok R Q genes g hg
+          obtain ⟨g', _, hh⟩ := (rowsFor_row R Q g names h2).1 row hrow
+          exact ⟨g', hh⟩
+        · exact ih r hr e he row hrow
+
+theorem mem_of_lookup {α β} [BEq α] [LawfulBEq α] (l : List (α × β)) (a : α) (b : β)
+    (h : l.lookup a = some b) : (a, b) ∈ l := by
+  induction l with
+  | nil => simp at h
+  | cons e es ih =>
+    obtain ⟨k, v⟩ := e
+    simp only [List.lookup_cons] at h
+    by_cases hk : (a == k) = true
+    · simp only [hk, Option.some.injEq] at h
+      simp only [beq_iff_eq] at hk
+      simp [hk, h]
+    · simp only [hk] at h
+      simp [ih h]
+
+/-- a successful cache creation, taken apart -/
+theorem createCache_ok_parts (t : RawTree) (lk : Lookup) (R Q : List Gene) (m : Nat) (c : Cache)
+    (h : createCache (some t) lk R Q m = .ok c) :
+    ∃ lk' cons gs, validateLookup t Q m lk = .ok lk' ∧ consultedOf t t.allParents = .ok cons ∧
+      intersectAll Q (some cons) lk' = .ok (lk'.map (fun e => (e.1, interQ Q e.2))) ∧
+      missingRef R lk' = false ∧
+      writeGroups R Q (lk'.map (fun e => (e.1, interQ Q e.2))) = .ok gs ∧
+      c = { groups := gs
+            allQuery := RawTree.sortNat (dedup (gs.flatMap (fun g => g.2.map (·.2))))
+            allRef := RawTree.sortNat (dedup (gs.flatMap (fun g => g.2.map (·.1))))
+            refNames := R, queryNames := Q } := by
+  rw [createCache_some] at h
+  cases hv : validateLookup t Q m lk with
+  | error e => simp [hv] at h
+  | ok lk' =>
+    cases hc : consultedOf t t.allParents with
+    | error e => simp [hv, hc] at h
+    | ok cons =>
+      cases hi : intersectAll Q (some cons) lk' with
+      | error e => simp [hv, hc, hi] at h
+      | ok final =>
+        simp only [hv, hc, hi] at h
+        have hf := intersectAll_ok_eq Q (some cons) lk' final hi
+        subst hf
+        cases hm : missingRef R lk' with
+        | true => simp [hm] at h
+        | false =>
+          simp only [hm, Bool.false_eq_true, if_false] at h
+          unfold writeCache at h
+          cases hw : writeGroups R Q (lk'.map (fun e => (e.1, interQ Q e.2))) with
+          | error e => simp [hw] at h
+          | ok gs =>
+            simp only [hw, Except.ok.injEq] at h
+            exact ⟨lk', cons, gs, rfl, rfl, hi, hm, hw, h.symm⟩
+
+/-- **the cache of a consulted parent**: the group exists; what the output
+reports (`serialize_markers`) and what `assemble_query_data` selects are the
+same list of names; as a set it is `specGenes` of the ORIGINAL table; the list
+has no repetition and is in increasing reference index. -/
+theorem createCache_group (t : RawTree) (hT : TreeOK t) (lk : Lookup) (R Q : List Gene) (m : Nat)
+    (c : Cache) (h : createCache (some t) lk R Q m = .ok c) (p : PKey) (hp : p ∈ t.allParents)
+    (hc : Consulted t p) :
+    ∃ rows names, c.groups.lookup p = some rows ∧ RowsFor R Q rows names ∧
+      rows.Pairwise (fun a b => a.1 ≤ b.1) ∧
+      reportedGroup c p = .ok names ∧ assemble c p = .ok names ∧
+      (∀ g, g ∈ names ↔ g ∈ specGenes t lk Q m p) ∧ names.Nodup := by
+  obtain ⟨lk', cons, gs, hv, _, _, _, hw, rfl⟩ := createCache_ok_parts t lk R Q m c h
+  have hsome := validateLookup_isSome t hT Q m lk lk' hv p hp hc
+  obtain ⟨l, hl⟩ := Option.isSome_iff_exists.1 hsome
+  have hfin : get? (lk'.map (fun e => (e.1, interQ Q e.2))) p = some (interQ Q l) := by
+    rw [get?_map_inter, hl]; rfl
+  have hlook := writeGroups_lookup R Q _ gs hw p
+  rw [hfin] at hlook
+  cases hg : gs.lookup p with
+  | none => simp [hg] at hlook
+  | some rows =>
+    simp only [hg] at hlook
+    obtain ⟨names, hperm, hrows, hsorted⟩ := writeGroup_ok R Q _ rows hlook
+    obtain ⟨hnR, hnQ⟩ := rowsFor_namesAt R Q rows names hrows
+    have hmemb : ∀ g, g ∈ names ↔ g ∈ specGenes t lk Q m p := by
+      intro g
+      rw [hperm.mem_iff, mem_interQ]
+      have := (validateLookup_entries t hT Q m lk lk' hv).1 p hp hc g
+      simpa [hl] using this
+    have hnd : names.Nodup := hperm.nodup_iff.2 (nodup_interQ Q l)
+    refine ⟨rows, names, rfl, hrows, hsorted, ?_, ?_, hmemb, hnd⟩
+    · simp [reportedGroup, hg, hnR]
+    · -- assemble: all query indices are valid, every name is among all_query_markers
+      have hvalid := writeGroups_rows R Q _ gs hw
+      have hall : ∀ i ∈ RawTree.sortNat (dedup (gs.flatMap (fun g => g.2.map (·.2)))),
+          ∃ g, Q[i]? = some g := by
+        intro i hi
+        rw [mem_sortNat, mem_dedup, List.mem_flatMap] at hi
+        obtain ⟨e, he, hi⟩ := hi
+        rw [List.mem_map] at hi
+        obtain ⟨row, hrow, rfl⟩ := hi
+        obtain ⟨g, _, hq⟩ := hvalid e he row hrow
+        exact ⟨g, hq⟩
+      obtain ⟨allQ, haq, hmem⟩ := namesAt_ok_of_valid Q _ hall
+      have hin : ∀ g ∈ names, g ∈ allQ := by
+        intro g hg'
+        obtain ⟨row, hrow, _, hq⟩ := (rowsFor_row R Q rows names hrows).2 g hg'
+        refine hmem row.2 ?_ g hq
+        rw [mem_sortNat, mem_dedup, List.mem_flatMap]
+        exact ⟨(p, rows), mem_of_lookup gs p rows hg, List.mem_map.2 ⟨row, hrow, rfl⟩⟩
+      have hany : names.any (fun g => !(allQ.contains g)) = false := by
+        rw [List.any_eq_false]
+        intro g hg'
+        simp [hin g hg']
+      simp only [assemble, hg, hnR, hnQ, haq, hany]
+      simp
+
 end Markers
 end CTM
